@@ -242,10 +242,14 @@ def to_scenario(h, pool, reference=False):
         reqs = []
         for j, r in enumerate(c["reqs"]):
             raw = http_request(r["method"], r["target"], [("Metadata", "true"), ("x-marker", marker(h, c, j))], body=r["body"])
+            before = []
             if r["change"] and not reference:
-                reqs.append(req(raw, ops_before=[{"op": "set_rules", "endpoint": r["change"], "item": doc_json(r["rules"][r["change"]])}]))
-            else:
-                reqs.append(req(raw))
+                before.append({"op": "set_rules", "endpoint": r["change"], "item": doc_json(r["rules"][r["change"]])})
+            if h.get("burst") and j == 0:
+                # all connections are accepted first, then every request is sent at the same instant
+                before += [{"op": "wait_trace", "port": 12000 + c["id"], "lookups": 1, "timeout_ms": 60000},
+                           {"op": "barrier", "name": "burst-%d" % h["idx"], "n": len(h["conns"])}]
+            reqs.append(req(raw, ops_before=before) if before else req(raw))
         ops = []
         if not reference:
             if c["change"]:
@@ -254,6 +258,8 @@ def to_scenario(h, pool, reference=False):
             if c["clear"]:
                 ops += [{"op": "snapshot", "label": "before-clear-%d" % c["id"]}, {"op": "clear_summary"}]
         knobs = {"ops_before_connect": ops} if ops else {}
+        if h.get("burst"):
+            knobs["local_port"] = 12000 + c["id"]
         cs.append(conn(reqs, audit=audit(c["dest"], uid=who["uid"], pid=who["pid"], is_admin=who["admin"]), id=c["id"], **knobs))
     sc = scenario({"c11": h["idx"], "ref": reference}, cs,
                   rules=None if reference else rules_json(h["rules"]),
@@ -557,7 +563,7 @@ def run(ctx):
         nburst = 320
         burst_e = fixed(990004, [{"id": i + 1, "caller": "root-helper", "dest": IMDS, "reqs": [get0]} for i in range(nburst)],
                         concurrent=True, rules=imds("enforce"), burst=True)
-        burst_a = fixed(990005, [{"id": i + 1, "caller": "root-helper", "dest": IMDS, "reqs": [get0] * 25} for i in range(14)],
+        burst_a = fixed(990005, [{"id": i + 1, "caller": "root-helper", "dest": IMDS, "reqs": [get0] * 2} for i in range(nburst // 2)],
                         concurrent=True, rules=imds("audit"), burst=True)
         hs = [finalize(h) for h in [f8, longs, flips, burst_e, burst_a] + hs]
 
